@@ -134,6 +134,7 @@ func (w *World) newCallee(c ssa.CallInstruction) *ssa.Function {
 func (w *World) callSitesOfNew(fn *ssa.Function) []ssa.CallInstruction {
 	if w.newSites == nil {
 		w.newSites = map[*ssa.Function][]ssa.CallInstruction{}
+		w.newRefs = map[*ssa.Function][]*ssa.Function{}
 		for _, f := range w.SSAFuncs {
 			for _, b := range f.Blocks {
 				for _, ins := range b.Instrs {
@@ -141,6 +142,14 @@ func (w *World) callSitesOfNew(fn *ssa.Function) []ssa.CallInstruction {
 						if callee := w.newCallee(c); callee != nil {
 							k := namedOf(callee)
 							w.newSites[k] = append(w.newSites[k], c)
+						}
+					}
+					for _, op := range ins.Operands(nil) {
+						if g, ok := (*op).(*ssa.Function); ok && g.Parent() == nil && g.Blocks != nil && w.isNewFn(g) {
+							if c, isCall := ins.(ssa.CallInstruction); isCall && c.Common().StaticCallee() == g {
+								continue
+							}
+							w.newRefs[namedOf(g)] = append(w.newRefs[namedOf(g)], f)
 						}
 					}
 				}
@@ -167,12 +176,16 @@ func (w *World) hostsOf(fn *ssa.Function) []string {
 			return
 		}
 		sites := w.callSitesOfNew(f)
-		if len(sites) == 0 {
+		refs := w.newRefs[f]
+		if len(sites) == 0 && len(refs) == 0 {
 			out[fnReal(f)] = true // unreferenced new function: stands for itself
 			return
 		}
 		for _, c := range sites {
 			walk(c.Parent(), depth+1)
+		}
+		for _, g := range refs {
+			walk(g, depth+1) // used as a value there (callback, registration)
 		}
 	}
 	walk(fn, 0)
@@ -241,6 +254,13 @@ func (w *World) regionFns(fn *ssa.Function) []*ssa.Function {
 				if callee := w.newCallee(c); callee != nil && !seen[namedOf(callee)] {
 					seen[namedOf(callee)] = true
 					out = append(out, callee)
+				}
+			}
+			// a new function used as a value (registered as a callback, stored, passed on)
+			for _, op := range ins.Operands(nil) {
+				if f, ok := (*op).(*ssa.Function); ok && f.Parent() == nil && f.Blocks != nil && w.isNewFn(f) && !seen[namedOf(f)] {
+					seen[namedOf(f)] = true
+					out = append(out, f)
 				}
 			}
 		})
@@ -382,10 +402,19 @@ func (w *World) astRegion(fi *FuncInfo) []*FuncInfo {
 			continue
 		}
 		ast.Inspect(cur.Decl.Body, func(n ast.Node) bool {
-			if c, ok := n.(*ast.CallExpr); ok {
-				if name := calleeOfCall(cur.Pkg.TypesInfo, c); name != "" && !seen[name] && w.isNewName(name) {
+			switch x := n.(type) {
+			case *ast.CallExpr:
+				if name := calleeOfCall(cur.Pkg.TypesInfo, x); name != "" && !seen[name] && w.isNewName(name) {
 					seen[name] = true
 					out = append(out, w.Funcs[name])
+				}
+			case *ast.Ident:
+				// a new function used as a value (registered as a callback, stored, passed on)
+				if f, ok := cur.Pkg.TypesInfo.Uses[x].(*types.Func); ok {
+					if name := shortFuncName(f); !seen[name] && w.isNewName(name) {
+						seen[name] = true
+						out = append(out, w.Funcs[name])
+					}
 				}
 			}
 			return true
@@ -505,7 +534,7 @@ func condAtomsOfExpr(a *Atoms) []string {
 	}
 	for cl := range a.Calls {
 		cl = strings.TrimPrefix(cl, "inlined:")
-		if strings.HasPrefix(cl, "builtin.") || strings.HasPrefix(cl, "conv:") {
+		if strings.HasPrefix(cl, "builtin.") || strings.HasPrefix(cl, "conv:") || isPlumbingCall(cl) {
 			continue
 		}
 		out = append(out, "call:"+cl)
@@ -632,4 +661,85 @@ func (w *World) hostPosOfInstr(fi *FuncInfo, ins ssa.Instruction) token.Pos {
 		}
 	}
 	return ins.Pos()
+}
+
+// originValues: the values v can be, looking through type changes, conversions, phis, the
+// results of new functions and their parameters (bound to call-site arguments). The leaves
+// are constants, calls of reviewed functions (or extracts of them), loads, parameters of
+// reviewed functions, ...
+func (w *World) originValues(v ssa.Value) []ssa.Value {
+	var out []ssa.Value
+	seen := map[ssa.Value]bool{}
+	var walk func(v ssa.Value, depth int)
+	walk = func(v ssa.Value, depth int) {
+		if v == nil || seen[v] || depth > 40 {
+			return
+		}
+		seen[v] = true
+		switch x := v.(type) {
+		case *ssa.ChangeType:
+			walk(x.X, depth+1)
+		case *ssa.Convert:
+			walk(x.X, depth+1)
+		case *ssa.Phi:
+			for _, e := range x.Edges {
+				walk(e, depth+1)
+			}
+		case *ssa.Parameter:
+			if x.Parent().Parent() == nil && w.isNewFn(x.Parent()) {
+				idx := -1
+				for i, q := range x.Parent().Params {
+					if q == x {
+						idx = i
+					}
+				}
+				if sites := w.callSitesOfNew(x.Parent()); idx >= 0 && len(sites) > 0 {
+					for _, c := range sites {
+						if args := c.Common().Args; idx < len(args) {
+							walk(args[idx], depth+1)
+						}
+					}
+					return
+				}
+			}
+			out = append(out, v)
+		case *ssa.Extract:
+			if call, ok := x.Tuple.(*ssa.Call); ok {
+				if callee := w.newCallee(call); callee != nil {
+					for _, b := range callee.Blocks {
+						if ret, ok := b.Instrs[len(b.Instrs)-1].(*ssa.Return); ok && x.Index < len(ret.Results) {
+							walk(unspill(ret.Results[x.Index], b), depth+1)
+						}
+					}
+					return
+				}
+			}
+			out = append(out, v)
+		case *ssa.Call:
+			if callee := w.newCallee(x); callee != nil {
+				for _, b := range callee.Blocks {
+					if ret, ok := b.Instrs[len(b.Instrs)-1].(*ssa.Return); ok && len(ret.Results) == 1 {
+						walk(unspill(ret.Results[0], b), depth+1)
+					}
+				}
+				return
+			}
+			out = append(out, v)
+		default:
+			out = append(out, v)
+		}
+	}
+	walk(v, 0)
+	return out
+}
+
+// isPlumbingCall: standard-library calls that only move a collection around (keys of a map,
+// a sorted or cloned copy, an iterator): they decide nothing about an element.
+func isPlumbingCall(name string) bool {
+	for _, p := range []string{"maps.Keys", "maps.Values", "maps.All", "slices.Sorted", "slices.Collect", "slices.Clone", "slices.Values", "slices.All", "func:"} {
+		if strings.HasPrefix(name, p) {
+			return true
+		}
+	}
+	return false
 }
